@@ -87,15 +87,33 @@ def d1_threading(ctx):
         if isinstance(v, ast.ListComp) and len(v.generators) == 1 and isinstance(v.elt, ast.Call) and call_name(v.elt) == "slice" and len(v.elt.args) == 2:
             it = loc_name(v.generators[0].target)
             a0, a1 = v.elt.args
+            bounds_vec = None
+            rng_ok = False
             if isinstance(a0, ast.Subscript) and isinstance(a1, ast.Subscript) and loc_name(a0.value) == loc_name(a1.value) and loc_name(a0.slice) == it \
                     and norm(a1.slice) == norm(ast.parse(f"{it} + 1", mode="eval").body):
+                bounds_vec = a0.value
+                rng_ok = isinstance(v.generators[0].iter, ast.Call) and call_name(v.generators[0].iter) == "range"
+            else:
+                # pairwise form: for lo, hi in zip(B[:-1], B[1:])  ->  slice(int(lo), int(hi))
+                tg, itr = v.generators[0].target, v.generators[0].iter
+
+                def _unint(e):
+                    return e.args[0] if isinstance(e, ast.Call) and call_name(e) == "int" and len(e.args) == 1 else e
+                if isinstance(tg, ast.Tuple) and len(tg.elts) == 2 and isinstance(itr, ast.Call) and call_name(itr) == "zip" and len(itr.args) == 2 \
+                        and [loc_name(_unint(a0)), loc_name(_unint(a1))] == [loc_name(tg.elts[0]), loc_name(tg.elts[1])] and not v.generators[0].ifs:
+                    z0, z1 = itr.args
+                    if isinstance(z0, ast.Subscript) and isinstance(z1, ast.Subscript) and loc_name(z0.value) is not None and loc_name(z0.value) == loc_name(z1.value) \
+                            and norm(z0.slice) == norm(ast.parse("x[:-1]", mode="eval").body.slice) and norm(z1.slice) == norm(ast.parse("x[1:]", mode="eval").body.slice):
+                        bounds_vec = z0.value
+                        rng_ok = True
+            if bounds_vec is not None:
+                a0 = ast.Subscript(value=bounds_vec, slice=ast.Constant(value=0), ctx=ast.Load())
                 bd = expand_name(duc, a0.value, sls[0])
                 while isinstance(bd, ast.Call) and call_name(bd) in ("astype", "asarray", "array") and (bd.args or isinstance(bd.func, ast.Attribute)):
                     bd = bd.func.value if call_name(bd) == "astype" else bd.args[0]
                 if isinstance(bd, ast.Call) and call_name(bd) == "searchsorted" and len(bd.args) == 2 and "wf_flat['sample']" in src(bd.args[0]) \
                         and (kwarg(bd, "side") is None or const_value(kwarg(bd, "side")) == (True, "left")):
                     edges = expand_name(duc, bd.args[1], sls[0])
-                    rng_ok = isinstance(v.generators[0].iter, ast.Call) and call_name(v.generators[0].iter) == "range"
                     oks = rng_ok and norm(edges) == norm(ast.parse("np.r_[s0_arr, sr.ns]", mode="eval").body)
     ctx.check(oks, fc, sls[0] if sls else fc.node, sls[0] if sls else "slices", "row ranges come from searchsorted of the sorted samples at the chunk bounds",
               "chunk row ranges are not searchsorted(wf_flat['sample'], [s0, s1])", key="cbin->chunk:slices")
@@ -178,8 +196,12 @@ def d3_offsets(ctx, bind_chunk, dl_call):
             def ev(self, e):
                 if isinstance(e, ast.Subscript) and isinstance(e.slice, ast.Constant) and e.slice.value == "sample":
                     return Poly.sym("S")
-                if isinstance(e, ast.Call) and call_name(e) in ("astype",):
+                if isinstance(e, ast.Call) and call_name(e) in ("astype", "to_numpy", "copy") and isinstance(e.func, ast.Attribute):
                     return self.ev(e.func.value)
+                if isinstance(e, ast.Attribute) and e.attr == "values":
+                    return self.ev(e.value)
+                if isinstance(e, ast.Call) and call_name(e) in ("asarray", "array", "int64", "int32") and len(e.args) >= 1:
+                    return self.ev(e.args[0])
                 return super().ev(e)
         ev = E(env=env, facts=facts, resolve=lambda e: repo.resolve_expr(fw, e), assume=assume)
         from sa.algebra import SymExec
@@ -233,22 +255,48 @@ def d4_rows(ctx):
     st = [n for n in walk_function(fw.node) if isinstance(n, ast.Assign) and isinstance(n.targets[0], ast.Subscript) and loc_name(n.targets[0].value) == "wfs_mmap"]
     if not st:
         raise AnchorMissing("write_wfs_chunk: store into the memmap not found")
-    s = st[0]
-    row = s.targets[0].slice.elts[0] if isinstance(s.targets[0].slice, ast.Tuple) else s.targets[0].slice
-    rv = expand_name(du, row, s)
-    okrow = "wf_flat" in src(rv) and "waveform_index" in src(rv)
-    call = next((c for c in find(s.value, ast.Call) if call_name(c) == "extract_wfs_array"), None)
-    okdf = False
-    if call is not None:
-        b = bind(call, repo.fn(MOD + ".extract_wfs_array"))
-        dfv = expand_name(du, b.bound.get("df"), s)
-        if isinstance(dfv, ast.Call) and call_name(dfv) == "DataFrame" and dfv.args and isinstance(dfv.args[0], ast.Dict):
-            cols = {k.value: expand_name(du, v, s) for k, v in zip(dfv.args[0].keys, dfv.args[0].values)}
-            okdf = set(cols) >= {"sample", "peak_channel"} and "wf_flat['sample']" in src(cols["sample"]) and "wf_flat['peak_channel']" in src(cols["peak_channel"])
-        first = isinstance(s.value, ast.Subscript) and const_value(s.value.slice) == (True, 0)
-        okdf = okdf and first
-    ctx.check(okrow and okdf, fw, s, s, "row k of the chunk's table slice supplies both the destination row and the sample / peak channel of waveform k",
-              "destination rows and extracted samples/peaks do not come from the same rows of wf_flat", key="same-slice")
+    from sa import guards as GD
+    for s in st:
+        row = s.targets[0].slice.elts[0] if isinstance(s.targets[0].slice, ast.Tuple) else s.targets[0].slice
+        if isinstance(row, ast.Slice):
+            # block write rows[X[0] : X[-1] + 1] = <all waveforms of the chunk>: row k of the block is X[0] + k, which is X[k] only when X is
+            # an increasing run of consecutive integers - the guard has to establish exactly that
+            lo, up = row.lower, row.upper
+            okform = isinstance(lo, ast.Subscript) and const_value(lo.slice) == (True, 0) and isinstance(up, ast.BinOp) and isinstance(up.op, ast.Add) \
+                and const_value(up.right) == (True, 1) and isinstance(up.left, ast.Subscript) and const_value(up.left.slice) == (True, -1) \
+                and loc_name(lo.value) is not None and loc_name(lo.value) == loc_name(up.left.value) and row.step is None
+            if not okform:
+                raise AnalysisError(f"write_wfs_chunk: block store `{src(s.targets[0])[:70]}` not understood")
+            xn = loc_name(lo.value)
+            at_ = GD.Atoms()
+            pc_ = GD.path_condition(du.cfg, du.cfg.node_for(s), at_)
+            consecutive = False
+            for k_ in GD.atoms_of(pc_):
+                e_ = at_.exprs.get(k_)
+                t_ = src(e_).replace(" ", "") if e_ is not None else ""
+                if GD.entails(pc_, GD.Atom(k_)) is True and xn in t_ and (("diff(" in t_ and "==1" in t_ and "all(" in t_) or ("array_equal(" in t_ and "arange(" in t_)):
+                    consecutive = True
+            ctx.check(consecutive, fw, s, s, "rows are written as one block only when the row indices are an increasing run of consecutive integers",
+                      f"`{src(s)[:80]}` writes the chunk's waveforms as one block of rows {xn}[0]..{xn}[-1] although the guard ({GD.show(pc_)[:140]}) does not establish that {xn} "
+                      f"is increasing and consecutive: span == count also holds for an interleaved order such as [1, 6, 3] - row 6 is never written and a row of another unit is "
+                      "overwritten (waveform_index is cluster-major while the chunk is in chronological order)", key="block-rows", name_free=True)
+            rv = expand_name(du, lo.value, s)
+        else:
+            rv = expand_name(du, row, s)
+        okrow = "wf_flat" in src(rv) and "waveform_index" in src(rv)
+        sv = expand_name(du, s.value, s)
+        call = next((c for c in find(sv, ast.Call) if call_name(c) == "extract_wfs_array"), None)
+        okdf = False
+        if call is not None:
+            b = bind(call, repo.fn(MOD + ".extract_wfs_array"))
+            dfv = expand_name(du, b.bound.get("df"), s)
+            if isinstance(dfv, ast.Call) and call_name(dfv) == "DataFrame" and dfv.args and isinstance(dfv.args[0], ast.Dict):
+                cols = {k.value: expand_name(du, v, s) for k, v in zip(dfv.args[0].keys, dfv.args[0].values)}
+                okdf = set(cols) >= {"sample", "peak_channel"} and "wf_flat['sample']" in src(cols["sample"]) and "wf_flat['peak_channel']" in src(cols["peak_channel"])
+            first = isinstance(sv, ast.Subscript) and const_value(sv.slice) == (True, 0)
+            okdf = okdf and first
+        ctx.check(okrow and okdf, fw, s, s, "row k of the chunk's table slice supplies both the destination row and the sample / peak channel of waveform k",
+                  "destination rows and extracted samples/peaks do not come from the same rows of wf_flat", key="same-slice")
     ft = repo.fn(MOD + "._make_wfs_table")
     sc = [n for n in walk_function(ft.node) if isinstance(n, ast.Assign) and isinstance(n.targets[0], ast.Subscript) and "waveform_index" in src(n.targets[0]) and ".loc" in src(n.targets[0])]
     okp = False
